@@ -773,7 +773,7 @@ def odd_bodies(ctx, n):
     rng = ctx.rng
     for _ in range(n):
         kind = rng.choice(['nested-run', 'nested-run', 'zero-interval-slow-body', 'fraction-delay', 'fraction-interval',
-                           'embedded-env'])
+                           'embedded-env', 'reused-ticker'])
         case = {'odd_body': kind}
         log = []
         if kind == 'nested-run':
@@ -818,6 +818,37 @@ def odd_bodies(ctx, n):
                     env.process(proc(env))
                     await env.until()
             want = [(p * (i + 1), p * (i + 1)) for i in range(3)]
+        elif kind == 'reused-ticker':
+            # ONE ticker object, left with `break` and iterated again in a LATER simulation (another loop, another clock):
+            # it reads the clock of the simulation it is running in - interval keeps its grid (the gap is one long body run
+            # of less than a period), delay pauses its span from the moment it is asked again
+            p, make = rng.choice([10, 20]), rng.choice([interval, delay])
+            gap = rng.choice([1, 5, p - 1])
+            case.update(period=p, ticker=make.__name__, gap=gap)
+            it = make(p)
+
+            async def first_run():
+                k = 0
+                async for now in it:
+                    log.append((now, time.now))
+                    k += 1
+                    if k == 2:
+                        break
+            try:
+                watch.run(first_run(), start=0)
+            except BaseException as e:   # noqa
+                ctx.fail(case, 'first run raised %r after %r' % (e, log), family='odd-bodies')
+                continue
+
+            async def main():
+                k = 0
+                async for now in it:
+                    log.append((now, time.now))
+                    k += 1
+                    if k == 2:
+                        break
+            second = [3 * p, 4 * p] if make is interval else [2 * p + gap + p, 2 * p + gap + 2 * p]
+            want = [(p, p), (2 * p, 2 * p)] + [(t, t) for t in second]
         elif kind == 'zero-interval-slow-body':
             d = rng.choice([1, 2])
             case.update(body=d)
@@ -849,7 +880,7 @@ def odd_bodies(ctx, n):
                 log.append(('date', time.now))
             want = [(p * (i + 1), p * (i + 1)) for i in range(4)] + [('date', p * 7)]
         try:
-            watch.run(main(), start=Fraction(0) if kind.startswith('fraction') else 0)
+            watch.run(main(), start=Fraction(0) if kind.startswith('fraction') else (2 * p + gap) if kind == 'reused-ticker' else 0)
         except BaseException as e:   # noqa
             ctx.fail(case, 'raised %r after %r' % (e, log), family='odd-bodies')
             continue
